@@ -40,6 +40,7 @@ type onEvent struct {
 	onDisconnectCallback atomic.Value
 	onRequestCallback    atomic.Value
 	closeCallbacks       atomic.Value // value is latest *callbackNode
+	closeCallbackRun     int32        // 1 once closeCallback has started to run the callbacks
 }
 
 type callbackNode struct {
@@ -292,6 +293,8 @@ func (c *connection) closeCallback(needLock, needDetach bool) (err error) {
 			logger.Printf("NETPOLL: closeCallback[%v,%v] detach operator failed: %v", needLock, needDetach, err)
 		}
 	}
+	// set before the list is loaded: whoever adds a callback and then finds this flag unset knows it will run
+	atomic.StoreInt32(&c.closeCallbackRun, 1)
 	latest := c.closeCallbacks.Load()
 	if latest == nil {
 		return nil
